@@ -20,11 +20,11 @@ FAMILY = "doc"
 ENTRIES = ["str", "strnl", "list", "fileLF", "fileCRLF", "fileNoEOL"]
 TIERS = {
     # KL: all valid documents of <= KL catalogue lines; KS: closures of <= KS seed lines
-    "quick": dict(KL=3, KS=2, TVALL="FALSE", nrand=150),
-    "thorough": dict(KL=4, KS=3, TVALL="TRUE", nrand=6000),
+    "quick": dict(KL=3, KS=2, TVALL="FALSE", FULLMOD=2, nrand=150),
+    "thorough": dict(KL=4, KS=3, TVALL="TRUE", FULLMOD=1, nrand=6000),
 }
 MC_CFG = ("SPECIFICATION Spec\nCONSTRAINT Emit\nINVARIANT Valid\nCHECK_DEADLOCK FALSE\n"
-          "CONSTANTS\n KL = %(KL)s\n KS = %(KS)s\n TVALL = %(TVALL)s\n")
+          "CONSTANTS\n KL = %(KL)s\n KS = %(KS)s\n TVALL = %(TVALL)s\n FULLMOD = %(FULLMOD)s\n")
 TRACE_CFG = "SPECIFICATION Spec\nCHECK_DEADLOCK FALSE\n"
 INVALID_MARK = "# INVALID"
 
@@ -555,7 +555,15 @@ def random_doc(rnd, ver):
             cand = segs + enames + gnames + onames + unames
             items = rnd.sample(cand, rnd.randint(1, min(4, len(cand))))
             nm = rnd.choice(["*", "ug%d" % i])
-            add(["U", nm, " ".join(items)])
+            if nm != "*" and len(items) >= 2 and rnd.random() < 0.4:
+                # one group given in two lines (tags with different names on each)
+                k = rnd.randint(1, len(items) - 1)
+                L.append("\t".join(["U", nm, " ".join(items[:k])] +
+                                   [random_tag(rnd, n) for n in rnd.sample(["ga", "gb"], rnd.randint(0, 2))]))
+                L.append("\t".join(["U", nm, " ".join(items[k:])] +
+                                   [random_tag(rnd, n) for n in rnd.sample(["gc", "gd"], rnd.randint(0, 2))]))
+            else:
+                add(["U", nm, " ".join(items)])
             if nm != "*":
                 unames.append(nm)
         for i in range(rnd.randint(0, 2)):
